@@ -498,6 +498,23 @@ def ind_key_model(ctx, maxn, emit=False, faults=False):
     return states
 
 
+def key_indq_jobs(ctx, minn, maxn, shards, limit=None):
+    """start states of more nodes than the full one-step run can afford (emit only: no model step), used for the
+    four query forms at the time the short-lived entries have just expired"""
+    consts = dict(key_consts(2 * maxn + 1, 1, emit=True), MaxN=maxn, MinN=minn)
+    r = ctx.model(f"indkey-states-n{minn}-{maxn}", "IndKey", consts, ["Structure", "EmitState"], workers=4, want_output=True,
+                  view=False, init="IndInit", nxt="IndNoStep")
+    want = sum(rb_tree_count(n) * 2 ** n * 2 for n in range(minn, maxn + 1))
+    states = [json.loads(ln)[6:] for ln in r["out"].splitlines() if ln.startswith('"STATE ')]
+    del r["out"]
+    if len(states) != want:
+        raise ToolError(f"IndKey start states n={minn}..{maxn}: TLC printed {len(states)}, the independent count gives {want}")
+    r["consts"] = dict(r["consts"], Keys=f"1..{2 * maxn + 1}", start_states=want, note="enumeration of start states only (no step)")
+    files = write_shards(ctx, f"indq-keytree-n{maxn}", states, shards, ctx.seed, limit)
+    return [ctx.submit(f"indq-keytree-n{maxn}-{i}", "keytree", "ind", {"states": pf, "queries": 1, "max_events": 900000})
+            for i, pf in enumerate(files)]
+
+
 def key_ind_jobs(ctx, maxn, shards, limit=None, export=0, max_events=600000):
     states = ind_key_model(ctx, maxn, emit=True)
     files = write_shards(ctx, f"ind-keytree-n{maxn}", states, shards, ctx.seed, limit)
@@ -597,6 +614,10 @@ def plan_key_semantics(ctx):
     futs += random_jobs(ctx, ["keytree"], 1 if q else 3, {"keys": 60, "tspan": 40, "steps": 1500 if q else 8000, "seglen": 500, "clears": 0}, tag="-chain")
     # one step of every kind from every valid tree x every pattern of expired / live nodes
     futs += key_ind_jobs(ctx, 4 if q else 6, 2 if q else 6, limit=120 if q else 3000)
+    # the query forms from start states of six and seven (thorough: also eight) nodes x every expiry pattern
+    futs += key_indq_jobs(ctx, 6, 7, 3 if q else 10, limit=450 if q else None)
+    if not q:
+        futs += key_indq_jobs(ctx, 8, 8, 6, limit=4000)
     futs += key_scale_jobs(ctx, colls, "ABCDG", deep=20000 if q else 60000)
     ctx.collect(futs)
     return ctx.finish(
